@@ -16,7 +16,10 @@ def gen(rng, n):
     out = []
     for i in range(n):
         g = G.GenRun(rng, is_async=(i % 2 == 1), faults=0.12, awaits=0.5)
-        out.append(g.case())
+        c = g.case()
+        while not G.small_enough(c):
+            c = g.case()
+        out.append(c)
     return out
 
 
